@@ -1,10 +1,6 @@
-use std::collections::VecDeque;
 use tevec::prelude::*;
 fn main() {
-    let a: VecDeque<f64> = vec![1., 2., 3., 4.].into();
-    let b: VecDeque<f64> = vec![1., 5.].into();
-    let r: Vec<f64> = a.ts_vcov(&b, 2, None);
-    println!("VecDeque: 4 inputs, second series of 2 -> {} outputs: {:?}", r.len(), r);
-    let r2 = std::panic::catch_unwind(|| { let r: Vec<f64> = vec![1., 2., 3., 4.].ts_vcov(&vec![1., 5.], 2, None); r });
-    println!("Vec: {:?}", r2.map(|v| v.len()));
+    let v = vec![1.0f64, 2.0, 3.0];
+    let r: Vec<f64> = v.ts_vsum(0, None);
+    println!("ts_vsum(window = 0) on Vec -> {:?}", r);
 }
